@@ -79,11 +79,12 @@ class dotdict_base( object ):
     """
     __slots__			= ()
     __invalid_keys__		= (
-        'clear', 'copy', 'get', 'set', 'items', 
+        'clear', 'copy', 'fromkeys', 'get', 'set', 'items', 
         'iteritems', 'iterkeys', 'itervalues',
         'listitems', 'listkeys', 'listvalues',
         'keys', 'values',
         'pop', 'popitem', 'setdefault', 'update',
+        '_resolve',
     )
 
     #def __repr__( self ):
